@@ -43,6 +43,7 @@ func generateSingle(plugin *protogen.Plugin, req generateRequest) error {
 		goPackageForFile[f.Desc.Path()] = string(f.GoPackageName)
 	}
 	funcs := codeGenFunctions(req.ProtoDesc, req.SpecialNames, goPackageForFile)
+	funcs["protoAPIVersion"] = func() string { return req.APIVersion }
 	for k, v := range req.Funcs {
 		funcs[k] = v
 	}
@@ -86,6 +87,7 @@ func generatePerMessage(plugin *protogen.Plugin, req generateRequest) error {
 		goPackageForFile[f.Desc.Path()] = string(f.GoPackageName)
 	}
 	funcs := codeGenFunctions(req.ProtoDesc, req.SpecialNames, goPackageForFile)
+	funcs["protoAPIVersion"] = func() string { return req.APIVersion }
 	for k, v := range req.Funcs {
 		funcs[k] = v
 	}
